@@ -14,7 +14,7 @@ import (
 // flipped decision. Until it is in the clause database it is only the reason of one literal: a conflict in the
 // continued search backjumps past it and the same model is found again.
 func ruleR5_5(w *World, r *Report) {
-	r.Rule("R5.5", "in the model-enumeration loops, the call that stores (and watches) the blocking clause dominates the call that continues the search with the flipped decision literal, and the store into reason[] of that clause", 2)
+	r.Rule("R5.5", "wherever a blocking clause is built and the search is then continued with a flipped decision literal, the call that stores (and watches) the clause dominates the continuation", 1)
 	// storers: functions appending to origClauses
 	storers := map[*ssa.Function]bool{}
 	for _, fn := range w.Fns {
@@ -27,67 +27,88 @@ func ruleR5_5(w *World, r *Report) {
 			}
 		}
 	}
+	// blockers: functions that make a clause with NewClause and hand it to a storer (the step may live in a helper)
+	npc := w.Func("solver", "NewClause")
+	isStoreEvent := func(fn *ssa.Function, ci ssa.CallInstruction) bool {
+		for _, c := range w.Callees[ci] {
+			if storers[c] {
+				for _, a := range ci.Common().Args {
+					if mk, ok := a.(*ssa.Call); ok && w.staticCalleeIs(mk, npc) {
+						return true
+					}
+				}
+			}
+		}
+		return false
+	}
+	blockers := map[*ssa.Function]bool{}
+	for _, fn := range w.Fns {
+		if w.PkgName(fn) != "solver" || storers[fn] {
+			continue
+		}
+		for _, ci := range callsIn(fn) {
+			if isStoreEvent(fn, ci) {
+				blockers[fn] = true
+			}
+		}
+	}
 	n := 0
 	for _, fn := range w.Fns {
 		if w.PkgName(fn) != "solver" || storers[fn] {
 			continue
 		}
-		// the blocking clause: NewClause(X) where X is a []Lit returned by a module call (decisionLits)
+		// store events in fn: direct, or a call of a blocker helper
+		var events []ssa.CallInstruction
 		for _, ci := range callsIn(fn) {
-			mk, ok := ci.(*ssa.Call)
-			if !ok || typeShort(mk.Type()) != "*solver.Clause" || len(mk.Call.Args) != 1 {
+			if isStoreEvent(fn, ci) {
+				events = append(events, ci)
 				continue
 			}
-			src, ok := mk.Call.Args[0].(*ssa.Call)
-			if !ok || typeShort(src.Type()) != "[]solver.Lit" || len(w.Callees[src]) == 0 {
+			for _, c := range w.Callees[ci] {
+				if blockers[c] && c != fn {
+					events = append(events, ci)
+				}
+			}
+		}
+		if len(events) == 0 {
+			continue
+		}
+		// continuations: calls returning Status that take a literal (the flipped decision), reachable from an event or
+		// from which an event is reachable within fn
+		for _, cj := range callsIn(fn) {
+			c2, ok := cj.(*ssa.Call)
+			if !ok || typeShort(c2.Type()) != "solver.Status" {
 				continue
 			}
-			if !inLoop(fn, mk.Block()) {
+			hasLit := false
+			for _, a := range c2.Call.Args {
+				if typeShort(a.Type()) == "solver.Lit" {
+					hasLit = true
+				}
+			}
+			if !hasLit {
+				continue
+			}
+			// same arm: some event and the continuation are ordered by dominance one way or the other
+			var related []ssa.CallInstruction
+			for _, e := range events {
+				if instrDominates(e, c2) || instrDominates(c2, e) {
+					related = append(related, e)
+				}
+			}
+			if len(related) == 0 {
 				continue
 			}
 			n++
-			key := fmt.Sprintf("%s blocking clause #%d", w.FuncName(fn), n)
-			var store ssa.CallInstruction
-			for _, cj := range callsIn(fn) {
-				for _, c := range w.Callees[cj] {
-					if storers[c] {
-						for _, a := range cj.Common().Args {
-							if a == ssa.Value(mk) {
-								store = cj
-							}
-						}
-					}
+			key := fmt.Sprintf("%s continuation #%d after a blocking clause", w.FuncName(fn), n)
+			ok2 := false
+			for _, e := range related {
+				if instrDominates(e, c2) {
+					ok2 = true
 				}
 			}
-			if store == nil {
-				r.Bad("R5.5", key, w.InstrPos(mk), "the blocking clause is never added to the clause database: models already counted are found again")
-				continue
-			}
-			var bad []string
-			// continuation: a call returning Status with a Lit argument, reachable after the clause is built
-			for _, cj := range callsIn(fn) {
-				c2, ok := cj.(*ssa.Call)
-				if !ok || typeShort(c2.Type()) != "solver.Status" || !instrReachableFrom(mk, c2) || c2.Block() == nil {
-					continue
-				}
-				hasLit := false
-				for _, a := range c2.Call.Args {
-					if typeShort(a.Type()) == "solver.Lit" {
-						hasLit = true
-					}
-				}
-				if !hasLit || !mk.Block().Dominates(c2.Block()) {
-					continue
-				}
-				if !instrDominates(store, c2) {
-					bad = append(bad, "the search is continued at "+w.InstrPos(c2)+" before the blocking clause is stored and watched (at "+w.InstrPos(store)+"): a conflict during that search backjumps past the unstored clause and the same model is reported again")
-				}
-			}
-			if len(bad) > 0 {
-				r.Bad("R5.5", key, w.InstrPos(store), strings.Join(dedupe(bad), "; "))
-			} else {
-				r.OK("R5.5", key, w.InstrPos(store), "stored and watched before the search continues")
-			}
+			r.Check(ok2, "R5.5", key, w.InstrPos(c2), "the clause is stored and watched before the search continues",
+				"the search is continued before the blocking clause is stored and watched: a conflict during that search backjumps past the unstored clause and the same model is reported again")
 		}
 	}
 }
